@@ -1,0 +1,26 @@
+// Copyright ©2017 The bíogo Authors. All rights reserved.
+// Use of this source code is governed by a BSD-style
+// license that can be found in the LICENSE file.
+
+//go:build verif
+// +build verif
+
+package cram
+
+import "io"
+
+// VerifReadITF8 reads one ITF-8 number from r with the stream reader used
+// by the container, block and slice decoders.
+func VerifReadITF8(r io.Reader) (int32, error) {
+	er := errorReader{r: r}
+	v := er.itf8()
+	return v, er.err
+}
+
+// VerifReadLTF8 reads one LTF-8 number from r with the stream reader used
+// by the container decoder.
+func VerifReadLTF8(r io.Reader) (int64, error) {
+	er := errorReader{r: r}
+	v := er.ltf8()
+	return v, er.err
+}
